@@ -92,6 +92,8 @@ def run_item(item):
         "sparse_random": (popgen.random_injective(rng, pids, 20000), popgen.random_injective(rng, hids, 20000)),
         "order_reversing": ({p: 5000 - 3 * p for p in pids}, {h: 900 - 7 * h for h in hids}),
         "shift": ({p: p + 1 for p in pids}, {h: h + 11 for h in hids}),
+        # hashed / very large person ids (not exactly representable as float64); household ids stay small
+        "huge_p_ids": ({p: 2 ** 53 + 1 + 2 * p for p in pids}, {h: h for h in hids}),
     }
     for name, (pm, hm) in maps.items():
         A2 = popgen.relabel(A, pm, hm)
